@@ -17,3 +17,17 @@ func VerifParseQuotedIdentifier(s string) (string, error) {
 func VerifParseJSONLiteral(s string) (Node, error) {
 	return parseJSONLiteral(s)
 }
+
+// VerifErrors returns one value of every error type of this package.
+func VerifErrors(s string) []error {
+	return []error{
+		&InvalidFunctionArgumentError{s, "expression"},
+		&InvalidFunctionCallError{s},
+		&InvalidSliceStepError{},
+		&UnknownFunctionError{s},
+		&invalidIndexError{s},
+		&invalidJSONLiteralError{s},
+		&invalidQuotedStringError{s},
+		&unexpectedTokenError{s},
+	}
+}
